@@ -176,6 +176,19 @@ class World:
         self.inq_rlock_id = pool._inqueue._rlock._semlock.handle
         self.outq_wlock_id = pool._outqueue._wlock._semlock.handle
         self.inq_rfd = pool._inqueue._reader.fileno()
+        # record-only wrapper around the result handler's handling of an accept message (the dict is the one its
+        # dispatcher closes over)
+        handlers = getattr(pool._result_handler, 'state_handlers', None)
+        if isinstance(handlers, dict) and ACK in handlers:
+            orig_ack = handlers[ACK]
+
+            def on_ack(job, i, *rest):
+                k.record('ack-begin', job, i)
+                try:
+                    return orig_ack(job, i, *rest)
+                finally:
+                    k.record('ack-end', job, i)
+            handlers[ACK] = on_ack
 
     def on_worker_started(self, child, process_obj):
         self.workers[child.pid] = {'proc': child, 'start_step': self.k.steps, 'start_time': self.k.now,
@@ -344,7 +357,7 @@ class World:
                         pool.shrink(op[1])
                         k.probe('shrink')
                 except ValueError:
-                    pass
+                    k.probe('shrink_refused_all_busy')
                 finally:
                     self.resizing -= 1
                     self.last_resize_step = k.steps
@@ -383,6 +396,7 @@ class World:
                 k.sleep(2.0)
                 s = pool._putlock
                 self.slot_checks.append({'value': s._value, 'bound': s._initial_value, 'step': k.steps,
+                                         'processes': pool._processes,
                                          'unresolved': [u for u, r in self.jobs.items()
                                                         if r.returned_handle and r.first is None and
                                                         r.kind == 'apply' and not r.discarded]})
